@@ -293,6 +293,45 @@ def run(ctx: Ctx) -> None:
                     what="calls in argument position are not part of the key of the kept call that receives their values")
     rep.floor("C01.R13", n13, 1)
 
+    # ---- R18: the function handed to keep / eval is analysed once, with the call ----------------------------------------------
+    rep.rule("C01.R18", "IntroVisitor.visit_Call marks the arguments of the call as seen (in the set of names that visit_Name consults) before it visits them: the function "
+                        "given to dds.keep / dds.eval is analysed with that call and its arguments, not a second time as a bare reference without arguments (two different "
+                        "signatures for the paths it keeps: the evaluation is refused, or the wrong one wins)")
+    vis18 = prog.cls("dds.introspect.IntroVisitor")
+    vc18 = vis18.methods.get("visit_Call") if vis18 is not None else None
+    vn18 = vis18.methods.get("visit_Name") if vis18 is not None else None
+    if vc18 is None or vn18 is None:
+        raise AnchorError("dds.introspect.IntroVisitor.visit_Call / visit_Name not found")
+    seen_sets = {c_.comparators[0].attr for c_ in vn18.own_nodes() if isinstance(c_, ast.Compare) and len(c_.ops) == 1 and isinstance(c_.ops[0], ast.NotIn)
+                 and isinstance(c_.comparators[0], ast.Attribute) and isinstance(c_.comparators[0].value, ast.Name) and c_.comparators[0].value.id == "self"}
+    node_param = vc18.positional_params()[0] if vc18.positional_params() else "node"
+    marks = []
+    for x in vc18.own_nodes():
+        if isinstance(x, ast.Call) and isinstance(x.func, ast.Attribute) and x.func.attr in ("add", "update") and isinstance(x.func.value, ast.Attribute) \
+                and x.func.value.attr in seen_sets and x.args:
+            # derived from the arguments of the call: mentions node.args directly, or calls a method of the visitor that reads them
+            srcs = [x.args[0]]
+            for y in ast.walk(x.args[0]):
+                if isinstance(y, ast.Call) and isinstance(y.func, ast.Attribute) and isinstance(y.func.value, ast.Name) and y.func.value.id == "self" and y.func.attr in vis18.methods:
+                    srcs.append(vis18.methods[y.func.attr].node)
+            if any(isinstance(z, ast.Attribute) and z.attr == "args" for s_ in srcs for z in ast.walk(s_)):
+                marks.append(x)
+    gv18 = [x for x in vc18.own_nodes() if isinstance(x, ast.Call) and isinstance(x.func, ast.Attribute) and x.func.attr == "generic_visit"]
+    desc18 = "the function argument of a dds.keep / dds.eval call is marked as seen before the arguments are visited"
+    c18 = cfg_of(vc18)
+    if not gv18:
+        rep.unknown("C01.R18", vc18.qname, "visit_Call does not visit the sub-expressions of the call", vc18.loc())
+    elif marks and all(dominated(ctx, vc18, g_, [d for mk in marks for d in done_nodes(c18, mk)]) is None for g_ in gv18):
+        rep.ok("C01.R18", vc18.qname, desc18, vc18.loc(marks[0]))
+    else:
+        rep.bad("C01.R18", vc18.qname, desc18, vc18.loc(gv18[0]), [f"{vc18.loc(gv18[0])}: `{unparse(gv18[0], 40)}` visits the arguments; no statement before it adds the function argument of the call to "
+                f"{sorted(seen_sets)}", "`def outer(x): return dds.keep('/inner', inner, x) + 1` and `def top(): return dds.keep('/outer', outer, 1)`: `outer` is analysed with the "
+                "argument 1 (by the keep) and once more without arguments (by visit_Name): '/inner' gets two signatures and dds.eval(top) is refused with OVERLAPPING_PATH, where plain "
+                "execution returns 12"], "callee-analysed-twice", what="the function given to dds.keep is also analysed as a bare reference: its kept paths get two signatures")
+    from .c09 import previous_covers_loads
+    rep.rule("C01.R17", "as C09.R16: the call-site context of a kept call covers the paths loaded before the call (their values can be its run-time arguments)")
+    n17 = previous_covers_loads(ctx, "C01.R17")
+    rep.floor("C01.R17", n17, 2)
     from .common import kinds_not_confused
     rep.rule("C01.R15", "as C14.R12: names, canonical paths, store paths and signatures are not used in place of one another in the analysis (mypy): the memo of "
                         "variable hashes is keyed by the canonical path of the variable")
